@@ -35,6 +35,7 @@ func (c *c01) ID() string { return "C01" }
 func (c *c01) Meta() engine.Meta {
 	return engine.Meta{
 		Category:  "model_checking",
+		MinRepro:  1,
 		LevelName: "number of deviations from the dense default history",
 		Technique: "deviation-bounded exhaustive exploration of block histories on the real application, twin-replica differential oracle",
 		Rule: "default = dense 8-block history (all 8 tx types, validator change, passing governance proposal, unbonding+refund, rewards+withdraw, contract deploy/call); " +
